@@ -7,11 +7,15 @@ from ..facts import callee
 STATE = 'samlang_services::server_state::ServerState'
 
 
+from .lookup_unwrap import _ROLE_OF_FIELD, _install_roles
+
+
 def _state_field(body, op):
+    """role name (parsed_modules, global_cx, ...) of the ServerState field an operand refers to"""
     r, p = operand_root(body, op)
     fs = [e for e in p if e[0] == 'f']
     if r == 1 and fs and fs[-1][1] == STATE:
-        return fs[-1][4]
+        return _ROLE_OF_FIELD.get(fs[-1][4], fs[-1][4])
     return None
 
 
@@ -37,6 +41,7 @@ def _map_calls(body, method_suffixes):
 
 
 def _mutators(prog):
+    _install_roles(prog)
     state_methods = [b for b in prog.bodies.values() if b.crate == 'samlang_services' and b.kind == 'assoc'
                      and b.self_ty is not None and b.self_ty.k == 'adt' and b.self_ty.id == STATE]
     recheck = [b for b in state_methods if any(f == 'errors' for _, _, f in _map_calls(b, ('::insert',)))]
@@ -107,7 +112,7 @@ def run_order(prog, tier, repo):
                 continue
             for st in bl.stmts:
                 if st[0] == 'a' and st[1].proj and st[1].proj[-1][0] == 'f' and st[1].proj[-1][1] == STATE \
-                        and st[1].proj[-1][4] == 'dep_graph':
+                        and _ROLE_OF_FIELD.get(st[1].proj[-1][4]) == 'dep_graph':
                     vr, _ = operand_root(b, st[2][1]) if st[2][0] == 'use' else (None, ())
                     sd = single_def(b, vr) if vr is not None else None
                     from_parsed = sd is not None and sd[1] == 'term' and sd[2][3] and _state_field(b, sd[2][3][0]) == 'parsed_modules'
